@@ -266,6 +266,35 @@ fn main() {
 """
 
 
+def noclone_program():
+    """requesting Clone asks `Clone` of the FIELD types, not of the struct: the vector is Clone and the whole cloning API is
+    there for a struct that is not Clone itself"""
+    return """#![allow(dead_code)]
+use soa_derive::StructOfArray;
+#[derive(StructOfArray, Debug, PartialEq)]
+#[soa_derive(Debug, Clone, PartialEq)]
+pub struct Ticket { pub id: u32, pub k: String, pub who: String }
+fn mk(i: u32) -> Ticket { Ticket { id: i, k: format!("k{}", i), who: format!("w{}", i) } }
+fn main() {
+    let mut v = TicketVec::new();
+    for i in 0..3 { v.push(mk(i)); }
+    let c = v.clone();
+    if c != v || c.len() != 3 { println!("FAIL noclone clone"); }
+    let t = v.slice(1..3).to_vec();
+    if t.len() != 2 || *t.index(0).id != 1 { println!("FAIL noclone to_vec"); }
+    let t2 = soa_derive::ToSoAVec::to_vec(&v.as_mut_slice());
+    if t2 != v { println!("FAIL noclone to_vec of the mutable slice"); }
+    let mut r = v.clone(); r.resize(5, mk(9));
+    if r.len() != 5 || *r.index(4).id != 9 || r.index(3).k != "k9" { println!("FAIL noclone resize"); }
+    soa_derive::SoAAppendVec::extend_from_slice(&mut r, t.as_slice());
+    if r.len() != 7 || r.index(6).who != "w2" { println!("FAIL noclone extend_from_slice"); }
+    r.extend(v.iter());
+    if r.len() != 10 { println!("FAIL noclone extend from references"); }
+    println!("DONE noclone");
+}
+"""
+
+
 def cases(tier, seed):
     rng = random.Random(seed)
     subsets = all_closed_subsets()
